@@ -60,7 +60,7 @@ func (e *Env) NewPt(level int) *rlwe.Plaintext {
 	return rlwe.NewPlaintext(e.RLWE, level)
 }
 
-var allShapes = []Shape{ShapeDirtyWords, ShapeDirtyMeta, ShapeLargerDegree, ShapeLargerLevel, ShapeSmallerLevel}
+var allShapes = []Shape{ShapeDirtyWords, ShapeDirtyMeta, ShapeLargerDegree, ShapeLargerLevel, ShapeSmallerLevel, ShapeSmallerDegree}
 
 // ctOut is the output spec of an operation whose result is a ciphertext of degree degf(d0,d1) at the
 // minimum level of its element operands (first two inputs).
@@ -81,13 +81,16 @@ func ctOut(degf func(d0, d1 int) int, shapes []Shape) *OutSpec {
 // ctAcc is the output spec of an accumulating operation (out += f(in)): the accumulator has
 // deterministic content, the given degree, the level of op0 and the given scale (nil: default).
 func ctAcc(degf func(d0, d1 int) int, scale func(e *Env, in []interface{}) rlwe.Scale, label string) *OutSpec {
-	return &OutSpec{Accumulates: true, New: func(e *Env, in []interface{}, dDeg, dLvl int) interface{} {
+	return &OutSpec{Accumulates: true, Shapes: []Shape{ShapeSmallerDegree}, New: func(e *Env, in []interface{}, dDeg, dLvl int) interface{} {
 		d0, l0 := degLvl(in[0])
 		d1, l1 := 0, 1<<20
 		if len(in) > 1 {
 			d1, l1 = degLvl(in[1])
 		}
-		ct := NewGen("acc", label).Ct(e, degf(d0, d1), minInt(l0, l1))
+		if degf(d0, d1)+dDeg < 1 {
+			return nil
+		}
+		ct := NewGen("acc", label).Ct(e, degf(d0, d1)+dDeg, minInt(l0, l1))
 		if scale != nil {
 			ct.Scale = scale(e, in)
 		}
